@@ -33,6 +33,22 @@ var channels = []channel{
 		B: `echo function_exists('c20_f') ? 'F' : 'f', class_exists('C20Cls') ? 'C' : 'c', interface_exists('C20If') ? 'I' : 'i'; class C20Cls { public $q = 2; } echo property_exists('C20Cls', 'p') ? 'P' : 'p', property_exists('C20Cls', 'q') ? 'Q' : 'q';`},
 	{Name: "same-class-name-other-body", A: `class Shape { public $sides = 3; function name() { return 'triangle'; } } $s = new Shape(); echo $s->name(), $s->sides;`,
 		B: `class Shape { public $sides = 4; public $extra = 'e'; function name() { return 'square'; } } $s = new Shape(); echo $s->name(), $s->sides, json_encode($s);`},
+	// one name, two declarations with different relations: everything a VM answers about a class must
+	// come from that VM's declaration (catch clauses, typed parameters / returns / properties, instanceof, reflection)
+	{Name: "same-class-name-other-parent-catch", A: `class C20Err extends RuntimeException {} foreach ([1, 2] as $i) { try { throw new C20Err("a"); } catch (LogicException $e) { echo "logic;"; } catch (RuntimeException $e) { echo "runtime;"; } catch (Exception $e) { echo "exception;"; } }`,
+		B: `class C20Err extends LogicException {} foreach ([1, 2] as $i) { try { throw new C20Err("b"); } catch (RuntimeException $e) { echo "runtime;"; } catch (LogicException $e) { echo "logic;"; } catch (Exception $e) { echo "exception;"; } }`},
+	{Name: "same-class-name-other-parent-typehint", A: `class C20P1 {} class C20P2 {} class C20Kid extends C20P1 {} function c20_t1(C20P1 $x) { return "p1;"; } function c20_t2(C20P2 $x) { return "p2;"; } function c20_r(): C20P1 { return new C20Kid(); } class C20Box { public C20P1 $v; } try { echo c20_t1(new C20Kid()); } catch (\Throwable $e) { echo "t1-rejected;"; } try { echo c20_t2(new C20Kid()); } catch (\Throwable $e) { echo "t2-rejected;"; } try { c20_r(); echo "r-ok;"; } catch (\Throwable $e) { echo "r-rejected;"; } try { $b = new C20Box(); $b->v = new C20Kid(); echo "prop-ok;"; } catch (\Throwable $e) { echo "prop-rejected;"; }`,
+		B: `class C20P1 {} class C20P2 {} class C20Kid extends C20P2 {} function c20_t1(C20P1 $x) { return "p1;"; } function c20_t2(C20P2 $x) { return "p2;"; } function c20_r(): C20P1 { return new C20Kid(); } class C20Box { public C20P1 $v; } try { echo c20_t1(new C20Kid()); } catch (\Throwable $e) { echo "t1-rejected;"; } try { echo c20_t2(new C20Kid()); } catch (\Throwable $e) { echo "t2-rejected;"; } try { c20_r(); echo "r-ok;"; } catch (\Throwable $e) { echo "r-rejected;"; } try { $b = new C20Box(); $b->v = new C20Kid(); echo "prop-ok;"; } catch (\Throwable $e) { echo "prop-rejected;"; }`},
+	{Name: "same-class-name-other-interface", A: `interface C20I1 {} interface C20I2 {} class C20Impl implements C20I1 {} function c20_i1(C20I1 $x) { return "i1;"; } function c20_i2(C20I2 $x) { return "i2;"; } $o = new C20Impl(); echo $o instanceof C20I1 ? "is-i1;" : "not-i1;", $o instanceof C20I2 ? "is-i2;" : "not-i2;"; try { echo c20_i1($o); } catch (\Throwable $e) { echo "i1-rejected;"; } try { echo c20_i2($o); } catch (\Throwable $e) { echo "i2-rejected;"; } echo json_encode(array_values(class_implements($o)));`,
+		B: `interface C20I1 {} interface C20I2 {} class C20Impl implements C20I2 {} function c20_i1(C20I1 $x) { return "i1;"; } function c20_i2(C20I2 $x) { return "i2;"; } $o = new C20Impl(); echo $o instanceof C20I1 ? "is-i1;" : "not-i1;", $o instanceof C20I2 ? "is-i2;" : "not-i2;"; try { echo c20_i1($o); } catch (\Throwable $e) { echo "i1-rejected;"; } try { echo c20_i2($o); } catch (\Throwable $e) { echo "i2-rejected;"; } echo json_encode(array_values(class_implements($o)));`},
+	{Name: "same-class-name-other-parent-reflection", A: `class C20Q1 {} class C20Q2 {} class C20Sub extends C20Q1 {} $o = new C20Sub(); echo $o instanceof C20Q1 ? "q1;" : "-;", $o instanceof C20Q2 ? "q2;" : "-;", is_a($o, 'C20Q1') ? "a1;" : "-;", is_subclass_of($o, 'C20Q2') ? "s2;" : "-;", get_parent_class($o), ";";`,
+		B: `class C20Q1 {} class C20Q2 {} class C20Sub extends C20Q2 {} $o = new C20Sub(); echo $o instanceof C20Q1 ? "q1;" : "-;", $o instanceof C20Q2 ? "q2;" : "-;", is_a($o, 'C20Q1') ? "a1;" : "-;", is_subclass_of($o, 'C20Q2') ? "s2;" : "-;", get_parent_class($o), ";";`},
+	{Name: "same-interface-name-other-parent", A: `interface C20Base1 {} interface C20Base2 {} interface C20Mid extends C20Base1 {} class C20Leaf implements C20Mid {} function c20_b1(C20Base1 $x) { return "b1;"; } function c20_b2(C20Base2 $x) { return "b2;"; } try { echo c20_b1(new C20Leaf()); } catch (\Throwable $e) { echo "b1-rejected;"; } try { echo c20_b2(new C20Leaf()); } catch (\Throwable $e) { echo "b2-rejected;"; }`,
+		B: `interface C20Base1 {} interface C20Base2 {} interface C20Mid extends C20Base2 {} class C20Leaf implements C20Mid {} function c20_b1(C20Base1 $x) { return "b1;"; } function c20_b2(C20Base2 $x) { return "b2;"; } try { echo c20_b1(new C20Leaf()); } catch (\Throwable $e) { echo "b1-rejected;"; } try { echo c20_b2(new C20Leaf()); } catch (\Throwable $e) { echo "b2-rejected;"; }`},
+	{Name: "same-function-name-other-body", A: `function c20_same($x = 1) { static $calls = 0; $calls++; return "A" . $x . $calls . ";"; } echo c20_same(), c20_same(2);`,
+		B: `function c20_same($x = 7, $y = 8) { static $calls = 0; $calls++; return "B" . $x . $y . $calls . ";"; } echo c20_same(), c20_same(2);`},
+	{Name: "same-class-name-other-members", A: `class C20Mem { const K = 'ka'; public static $s = 'sa'; private $p = 'pa'; function get() { return $this->p; } static function make() { return new static(); } } echo C20Mem::K, C20Mem::$s, C20Mem::make()->get(), method_exists('C20Mem', 'only_in_a') ? 'y' : 'n';`,
+		B: `class C20Mem { const K = 'kb'; public static $s = 'sb'; protected $p = 'pb'; function get() { return $this->p; } function only_in_b() { return 1; } static function make() { return new static(); } } echo C20Mem::K, C20Mem::$s, C20Mem::make()->get(), method_exists('C20Mem', 'only_in_b') ? 'y' : 'n';`},
 	{Name: "global-variables", A: `$g = 5; function c20_h() { global $g; $g++; return $g; } echo c20_h();`,
 		B: `echo isset($g) ? 'set' : 'unset'; function c20_h() { global $g; return json_encode($g); } echo c20_h();`},
 	{Name: "output-buffer-left-open", A: `ob_start(); echo "inside-A";`,
